@@ -46,9 +46,9 @@ def first_diff(a, b):
 # Answer sets are invariant under an injective renaming of the atoms.  Renaming the propositional atoms of a generated program to atoms WITH
 # ARGUMENTS (negative numbers, strings with escape sequences, tuples, nested terms) sends every argument through the places of the code that
 # rebuild symbols from theory terms (formula atoms in bodies, heads and path expressions), with the unrenamed program as the reference.
-AMAP = {'a': 'pa(-1)', 'b': 'qb("x\\"y",f(-2))', 'c': 'rc((1,2),"")', 'd': 'sd("\\\\",-3)'}
+AMAP = {'a': 'pa(-1,(2,))', 'b': 'qb("x\\"y",f(-2))', 'c': 'rc((1,2),"")', 'd': 'sd("\\\\",-3)'}
 # the theory of &del atoms has no unary minus (gringo rejects `&del { p(-1) .>? q }` with "missing definition for operator"): no negative numbers there
-AMAP_DEL = {'a': 'pa(1)', 'b': 'qb("x\\"y",f(2))', 'c': 'rc((1,2),"")', 'd': 'sd("\\\\",3)'}
+AMAP_DEL = {'a': 'pa(1,(2,))', 'b': 'qb("x\\"y",f(2))', 'c': 'rc((1,2),"")', 'd': 'sd("\\\\",3)'}
 
 
 def rename(x, amap=AMAP):
